@@ -164,11 +164,19 @@ theorem ik_substitute (h : NNet) (c : Nat) (m h' : NNet) (li : LI h) (hc : c < h
     intro x hx
     obtain ⟨k, hk⟩ := mem_map_values map x hx
     rw [po.1.1]; exact o.2.2.2.2.2 k x hk
-  have he' : removeDangling (dang.length + h5.net.lines.size + 1) h5 (map.toList.filterMap id) dang = some h' := by
+  have he' : removeDangling (dang.length + h5.net.lines.size + 1) { h5 with net := densify h5.net map }
+      (map.toList.filterMap id) dang = some h' := by
     unfold substitute at he
     rw [hcore] at he
     exact he
-  rw [ik_removeDangling _ h5 _ dang h' li5 ho he', ik_pinsOnly h2 h5 po, ik_foldlM m _ sh.des _ _ _ hfold p1.1 p1.2,
+  have pd := pinsOnly_densify h5.net map
+  have od := obs_of_pinsOnly h5 { h5 with net := densify h5.net map } pd rfl
+  have hod : ∀ x ∈ map.toList.filterMap id, x < ({ h5 with net := densify h5.net map } : NNet).net.nodes.size := by
+    intro x hx
+    show x < (densify h5.net map).nodes.size
+    rw [pd.1.1]; exact ho x hx
+  rw [ik_removeDangling _ { h5 with net := densify h5.net map } _ dang h' (od.2.2 li5) hod he',
+    ik_pinsOnly h5 { h5 with net := densify h5.net map } pd, ik_pinsOnly h2 h5 po, ik_foldlM m _ sh.des _ _ _ hfold p1.1 p1.2,
     ik_phase1 h c m sh.des li hc hio]
 
 /-- the loop of `resolve_tlib_cells`: ports keep names, order and kinds when no port is itself a library cell -/
